@@ -96,6 +96,7 @@ inline void obs_data_array(Obs &o, const DataArray &a, const ObsOpt &opt) {
     o.u64("dtype", (uint64_t)a.dataType());
     VH_TRY(o, "data", obs_array_data(o, a, opt));
     VH_TRY(o, "dims", { ndsize_t n = a.dimensionCount(); o.u64("ndims", n); for (ndsize_t i = 1; i <= n; i++) obs_dimension(o, a.getDimension(i)); });
+    VH_TRY(o, "dimframes", { ndsize_t n = a.dimensionCount(); for (ndsize_t i = 1; i <= n; i++) { Dimension d = a.getDimension(i); if (d.dimensionType() == DimensionType::DataFrame) o.str("dimframe", d.asDataFrameDimension().data()->id()); } });
     obs_metadata(o, a); obs_sources(o, a);
 }
 
